@@ -215,6 +215,7 @@ pub fn run(ctx: &mut Ctx) {
         let mut rng = ctx.rng.fork();
         check_doc_edits(ctx, &gen::huge_payload_doc(), &Tree::Str("x".into()), &mut rng, false);
     }
+    let mon = super::routes::Monitor::new(super::routes::EDITORS);
     let n = if ctx.miri { ctx.miri_cases(2) } else { ctx.budget(250_000, 5_000_000) };
     for i in 0..n {
         if !ctx.next_case() {
@@ -234,6 +235,10 @@ pub fn run(ctx: &mut Ctx) {
         };
         let other = if rng.chance(1, 3) { gen::scalar(&mut rng, true) } else { gen::doc(&mut rng, &gen::DOC_SMALL) };
         check_doc_edits(ctx, &t, &other, &mut rng, i % 4 == 0);
+        if i % 3 == 1 && t.nodes() < 300 {
+            let args = super::routes::plain_args(&t, &mut rng);
+            mon.check(ctx, &t, &other, &args, &mut rng);
+        }
         ctx.sample(|| format!("doc={} other={}", t.show(), other.show()));
     }
 }
